@@ -533,7 +533,34 @@ def rule_same_words(ctx, strict=False):
               bad_what="square <-> index maps changed: %s / %s" % (expr_str(r0), expr_str(v)))
 
 
-RULES = [("writers", rule_writers), ("piece-pair", rule_piece_pair), ("turn-pair", rule_turn_pair), ("ep-pair", rule_ep_pair),
+
+def rule_clone(ctx):
+    """The search, the legality probe of the UCI layer and every `go` work on a copy of the board: `Board::clone` is a
+    field-for-field copy (the derive, or a hand-written impl that does the same), so the copy carries the same placement,
+    rights, en-passant file, history, remembered positions and key as the original."""
+    ix = ctx.ix
+    key = "<board::Board as std::clone::Clone>::clone"
+    b = ctx.body(key)
+    sym = ctx.sym(b)
+    r = mir.strip_copies(sym.local(0))
+    a = ix.adts.get("board::Board")
+    want = [f["name"] for f in a["variants"][0]["fields"]] if a else []
+    ok = r[0] == "agg" and str(r[1]) == "board::Board" and len(r) > 4 and list(r[4]) == want and len(want) >= 5
+    ctx.check(ok, "Board::clone:builds-a-board", "clone returns one Board literal with all %d fields" % len(want), b.where(0), bad_what="Board::clone returns `%s`" % expr_str(r)[:100])
+    if not ok:
+        return
+    for name, v in zip(r[4], r[3]):
+        v = mir.strip_copies(v)
+        while v[0] == "call" and v[1].endswith("::clone") and len(v[2]) == 1:
+            v = mir.strip_copies(mir.strip_refs(v[2][0]))
+        while v[0] == "ref":
+            v = mir.strip_copies(v[1])
+        same = v[0] == "field" and v[2:] == (name,) and mir.strip_copies(v[1]) in (("deref", ("arg", b.local_name(1))), ("arg", b.local_name(1)))
+        ctx.check(same, "Board::clone:field:%s" % name, "the copy's %s is a copy of the original's" % name, b.where(0),
+                  bad_what="the copy's `%s` is `%s`, not a copy of the original's %s: a board that was cloned (every `go`, every probe) is no longer the same position" % (name, expr_str(v)[:80], name))
+
+
+RULES = [("clone", rule_clone), ("writers", rule_writers), ("piece-pair", rule_piece_pair), ("turn-pair", rule_turn_pair), ("ep-pair", rule_ep_pair),
          ("castle-pair", rule_castle_pair), ("castle-revert", rule_castle_revert), ("ctor", rule_ctor), ("same-words", rule_same_words)]
 # "two games that arrive at the same position have the same key, and loading it from FEN gives that key too": the position a
 # game arrives at and the position a FEN loads must be the same engine state (en-passant file exactly after a double push as
